@@ -1,12 +1,12 @@
 package harness
 
 import (
-	"unsafe"
 	"encoding/binary"
 	"fmt"
 	"os"
 	"runtime/debug"
 	"syscall"
+	"unsafe"
 )
 
 // LastCase is a MAP_SHARED file into which a worker copies the case it is about to run
